@@ -172,7 +172,7 @@ def run(ctx):
         work.append(("f", "cycle", h, w, False))
         work.append(("f", "cycle", h, w, True))
         work.append(("f", "path", h, w, True))
-    for h, w in [(2, 2), (2, 3), (3, 2), (3, 3), (1, 5), (5, 1), (0, 2), (2, 0), (0, 0)] + ([(3, 4), (4, 3), (4, 4), (2, 6)] if thorough else []):
+    for h, w in [(2, 2), (2, 3), (3, 2), (3, 3), (1, 5), (5, 1), (0, 2), (2, 0), (0, 0)] + ([(3, 4), (4, 3), (2, 6), (6, 2), (1, 9)] if thorough else []):
         work.append(("fa", h, w))
     # 2x2 frame: 4096 subsets, split into chunks
     pats22 = list(D.all_patterns(12))
